@@ -28,6 +28,9 @@ Definition c_recl : nat := 4%nat.
 Definition c_res (t : nat) : nat := (10 + t)%nat.
 Definition tgt : nat := 0%nat.
 Definition l_reclaim : Z := 600.
+(* FIBER_JOIN_DETACHED: the address of a file-static object in fiber.c; it is in no
+   named range, so the runtime prints it as -777777 *)
+Definition SENT : Z := -777777.
 
 Inductive jop := JJoin | JTry | JDetach | JYield | JFinish (r : Z) | JSkip.
 
@@ -40,17 +43,20 @@ Inductive jc :=
 | TDoneW | TY1 | TY2 | TY3 | TY4 | TY5
 (* fiber_join *)
 | JLoaded (p : list jop) (k : nat) | JXchg (p : list jop) (k : nat)
-| JWoke (p : list jop) (k : nat) | JMail (p : list jop) (k : nat) | JCleared (p : list jop) (k : nat) (v : Z)
+| JWoke (p : list jop) (k : nat) | JChk (p : list jop) (k : nat) | JDetd (p : list jop) (k : nat) | JMail (p : list jop) (k : nat) | JCleared (p : list jop) (k : nat) (v : Z)
 | JReadRes (p : list jop) (k : nat) | JTook (p : list jop) (k : nat) (r : Z) | JReady (p : list jop) (k : nat) (r : Z) (j : nat)
 (* fiber_tryjoin *)
 | TrL1 (p : list jop) (k : nat) | TrL2 (p : list jop) (k : nat) | TrX (p : list jop) (k : nat)
 (* fiber_detach *)
-| DX (p : list jop) (k : nat) | DTook (p : list jop) (k : nat) | DReady (p : list jop) (k : nat) (j : nat).
+| DX (p : list jop) (k : nat) | DTook (p : list jop) (k : nat) | DSent (p : list jop) (k : nat) (j : nat) | DReady (p : list jop) (k : nat) (j : nat).
 
 Definition retev (t k : nat) (v : Z) : list Z := [Zn t; Zn k; 909; v].
 
 Section Client.
   Variable guarded : bool.
+  (* true: the repaired code (commit 4ff1f32: fiber_detach marks the joiner it wakes with
+     FIBER_JOIN_DETACHED, the woken fiber_join returns FIBER_ERROR); false: the code before it *)
+  Variable fixd : bool.
 
   (* begin the calls of the program; skipped calls only emit ret -1.
      inv = the harness-side "handle given up" flag *)
@@ -116,7 +122,11 @@ Section Client.
     | JXchg p k => if v =? D_NONE then (m, [], [SWState c_ji (fname t); FC (JWoke p k)])
                    else if v =? D_WFJ then (m, [], [CLoadC (c_res tgt) 5; FC (JReadRes p k)])
                    else fin m t p k 0 false
-    | JWoke p k => (m, [], [CLoadC (c_res t) 5; FC (JMail p k)])
+    | JWoke p k => if fixd then (m, [], [CLoadC (c_res t) 5; FC (JChk p k)])   (* result == FIBER_JOIN_DETACHED ? *)
+                   else (m, [], [CLoadC (c_res t) 5; FC (JMail p k)])
+    | JChk p k => if v =? SENT then (m, [], [CStoreC (c_res t) 0 5; FC (JDetd p k)])
+                  else (m, [], [CLoadC (c_res t) 5; FC (JMail p k)])
+    | JDetd p k => fin m t p k 0 false
     | JMail p k => (m, [], [CStoreC (c_res t) 0 5; FC (JCleared p k v)])
     | JCleared p k r => fin m t p k (100 + r) true
     | JReadRes p k => (m, [], [CWXchg c_ji; FC (JTook p k v)])
@@ -134,25 +144,28 @@ Section Client.
     | DX p k => if (v =? D_WFJ) || (v =? D_WTJ) then (m, [], [CWXchg c_ji; FC (DTook p k)])
                 else if v =? D_DET then fin m t p k 0 false
                 else fin m t p k 100 true
-    | DTook p k => (m, [], [FStWrite (tid_of_name v) ST_READY; FC (DReady p k (tid_of_name v))])
+    | DTook p k => if fixd && negb (tid_of_name v =? tgt)%nat
+                   then (m, [], [CStoreC (c_res (tid_of_name v)) SENT 5; FC (DSent p k (tid_of_name v))])
+                   else (m, [], [FStWrite (tid_of_name v) ST_READY; FC (DReady p k (tid_of_name v))])
+    | DSent p k j => (m, [], [FStWrite j ST_READY; FC (DReady p k j)])
     | DReady p k j => let '(m1, e1) := sched m t j in
                     let '(m2, e2, s2) := fin m1 t p k 100 true in (m2, e1 ++ e2, s2)
     end.
 End Client.
 
-Record st := { mem : kmem; stk : nat -> stack jc; nthr : nat; grd : bool }.
+Record st := { mem : kmem; stk : nat -> stack jc; nthr : nat; grd : bool; fxd : bool }.
 
 Definition step (s : st) (t : nat) : st * list Z :=
-  let '(m1, e1, s1) := kstep jc (cret (grd s)) (mem s) t (stk s t) in
-  ({| mem := m1; stk := upd (stk s) t s1; nthr := nthr s; grd := grd s |}, e1).
+  let '(m1, e1, s1) := kstep jc (cret (grd s) (fxd s)) (mem s) t (stk s t) in
+  ({| mem := m1; stk := upd (stk s) t s1; nthr := nthr s; grd := grd s; fxd := fxd s |}, e1).
 
 Definition status_of (s : st) (t : nat) : status :=
   if (t <? nthr s)%nat then kstatus jc (mem s) t (stk s t) else SDone.
 
-Definition init (g : bool) (progs : list (list jop)) : st :=
+Definition init (fx g : bool) (progs : list (list jop)) : st :=
   {| mem := kinit 0 (fun _ => 0);
      stk := fun t => [Start; FC (JNext (nth t progs []) 1)];
-     nthr := length progs; grd := g |}.
+     nthr := length progs; grd := g; fxd := fx |}.
 
 Definition M : machine :=
   {| mstate := st; mstep := step; mstatus := status_of; mthreads := nthr |}.
@@ -166,7 +179,8 @@ Definition dec_op (p : Z * Z) : jop :=
 
 Definition run_case (l : list Z) : list Z :=
   match decode_case l with
-  | Some c => run_all M (init (negb (nthZ (c_params c) 1 =? 1)) (map (map dec_op) (c_progs c))) []
+  | Some c => run_all M (init (nthZ (c_params c) 2 =? 1) (negb (nthZ (c_params c) 1 =? 1))
+                              (map (map dec_op) (c_progs c))) []
                       (c_sched c) (Z.to_nat (nthZ (c_params c) 0))
   | None => [(-1)%Z]
   end.
